@@ -29,23 +29,23 @@ import (
 )
 
 type EngCase struct {
-	Mode          string `json:"mode"` // normal | error | cancel
-	Instances     int    `json:"instances"` // started at once
+	Mode      string `json:"mode"`      // normal | error | cancel
+	Instances int    `json:"instances"` // started at once
 	// gradual startup: after the `once` part the startup schedule goes on with const{ops, duration}
 	// (0 = startup is `once` only), so instances are still being started while the pool runs
-	StartOps   float64 `json:"startup_then_const_ops"`
-	StartDurMs int     `json:"startup_then_const_duration_ms"`
-	PerShot       int    `json:"reports_per_shot"`
-	Tokens        int    `json:"tokens"`
-	Ammo          int    `json:"ammo"` // <0 unbounded
-	Queue         int    `json:"sample_queue_size"`
-	IDs           bool   `json:"ids"`
-	TagSuffix     string `json:"tag_suffix"`
-	ShotUs        []int  `json:"shot_us"`
-	FaultAtItem   int    `json:"provider_fault_at_item"`        // error mode
-	CancelAfter   int    `json:"cancel_after_reports"`          // cancel mode: trigger = this many reports completed
-	CancelDelayUs int    `json:"cancel_delay_after_trigger_us"` // cancel mode
-	Repeat        int    `json:"repeat"`
+	StartOps      float64 `json:"startup_then_const_ops"`
+	StartDurMs    int     `json:"startup_then_const_duration_ms"`
+	PerShot       int     `json:"reports_per_shot"`
+	Tokens        int     `json:"tokens"`
+	Ammo          int     `json:"ammo"` // <0 unbounded
+	Queue         int     `json:"sample_queue_size"`
+	IDs           bool    `json:"ids"`
+	TagSuffix     string  `json:"tag_suffix"`
+	ShotUs        []int   `json:"shot_us"`
+	FaultAtItem   int     `json:"provider_fault_at_item"`        // error mode
+	CancelAfter   int     `json:"cancel_after_reports"`          // cancel mode: trigger = this many reports completed
+	CancelDelayUs int     `json:"cancel_delay_after_trigger_us"` // cancel mode
+	Repeat        int     `json:"repeat"`
 }
 
 func genEngCase(t *rapid.T) EngCase {
@@ -137,7 +137,7 @@ func (p *eprov) Acquire() (core.Ammo, bool) {
 	}
 	return i, ok
 }
-func (p *eprov) Release(core.Ammo)          {}
+func (p *eprov) Release(core.Ammo) {}
 
 type doneRec struct {
 	key string
